@@ -1,2 +1,9 @@
-import Walrus.Arena
-import Walrus.Proofs.Arena
+-- Root of the `Walrus` library: every model, proof and property module.
+import Walrus.Props.C03
+import Walrus.Props.C08
+import Walrus.Props.C09
+import Walrus.Props.C12
+import Walrus.Props.C14
+import Walrus.Props.C15
+import Walrus.Props.C16
+import Walrus.Props.C17
